@@ -19,7 +19,7 @@ ASSUMPTIONS = [
 ]
 OUTSIDE = ["k > 4", "for n above the enumeration bound the claim rests on the loop-invariant lemmas (unbounded n, k<=4) plus two classical facts listed under trusted"]
 RULE = "one path per (n,k) and per index interval the code distinguishes; the index stays symbolic on the path."
-BUDGET_S = {"quick": 200, "thorough": 1500}
+BUDGET_S = {"quick": 600, "thorough": 3000}
 TASK_QUOTA = 200
 
 
